@@ -1083,7 +1083,10 @@ class Evaluator:
             return False
         if any(f.body is callee_body for f in self.stack):
             return False
-        if any(r.search(callee) for r in self.no_inline):
+        # the blanket pattern "\{closure" keeps a rule in the frame of the function it reads (the constructor closures are analysed on their own); a
+        # closure of one expression (`|| 0`, `|| err("..")`) is part of that frame's arithmetic and is evaluated in place
+        tiny = callee_body.kind == "Closure" and len(callee_body.blocks) <= 3
+        if any(r.search(callee) for r in self.no_inline if not (tiny and r.pattern == r"\{closure")):
             return False
         if self.inline_only is not None and not any(r.search(callee) for r in self.inline_only):
             return False
@@ -1333,6 +1336,13 @@ class Evaluator:
             if tag(x) == "call" and x[1].endswith("checked_sub"):
                 return ("satsub", x[2][0], x[2][1])
             return ("call", c, tuple(args))
+        if re.search(r"(Result|Option)::<.*>::(unwrap_or)$", c) and len(args) == 2:
+            x, dflt = args
+            if tag(x) == "call" and x[1].endswith("checked_sub") and is_const(dflt) and as_lin(dflt).c == 0:
+                return ("satsub", x[2][0], x[2][1])
+            if tag(x) == "variant":
+                return x[3][0] if x[2] in ("Ok", "Some") else dflt
+            return ("call", c, tuple(args))
         if re.search(r"IntoIterator>?::into_iter$", c) and len(args) == 1 and tag(args[0]) == "struct" and args[0][1].endswith("ops::Range"):
             return args[0]      # a Range is its own iterator
         if re.search(r"iter::Iterator for std::ops::Range<\w+>>::next$|iter::Iterator for core::ops::Range<\w+>>::next$", c) and len(args) == 1:
@@ -1497,6 +1507,16 @@ class Evaluator:
                     outv.setdefault(bad, (self._payload(r, bad, 0),) if kind == "Result" else ())
             else:
                 outv[vn] = (r,)
+        if op == "unwrap_or_else":
+            # the value itself, not an Option / Result: the good payload, or what the closure made of the other variant
+            dflt = outv.get(bad, (None,))[0] if bad in outv else None
+            if tag(recv) == "call" and recv[1].endswith("checked_sub") and dflt is not None and is_const(dflt) and as_lin(dflt).c == 0:
+                return ("satsub", recv[2][0], recv[2][1])
+            if good not in outv:
+                return dflt
+            if bad not in outv or dflt is None:
+                return outv[good][0]
+            return self._join_val(outv[good][0], dflt, site, ("unwrap_or_else",))
         if len(outv) == 1:
             (n, p), = outv.items()
             return ("variant", adt, n, p)
